@@ -219,24 +219,23 @@ def r202(ctx):
            'in place; the sliced handle must own copies of all of them: %s' % (norm(st[0]) if st else 'no schema copy'),
            api.loc(st[0]) if st else api.loc(f))
     state = [c for c in ast.walk(f) if isinstance(c, ast.Call) and callee(c) == 'new_pf.__setstate__']
-    ok = len(state) == 1 and isinstance(state[0].args[0], ast.Dict)
-    if ok:
-        d = {norm(k): norm(v) for k, v in zip(state[0].args[0].keys, state[0].args[0].values)}
-        ok = d.get("'fmd'") == 'fmd'
+    from .c06 import state_form
+    form, given = state_form(state[0]) if len(state) == 1 else (None, {})
+    ok = form is not None and 'fmd' in given and norm(given['fmd']) == 'fmd'
     ctx.ob('R20.2', 'api.__getitem__:new-handle-built-from-the-private-metadata', ok, '', api.loc(f))
-    if ok:
-        keys = sorted(k.value for k in state[0].args[0].keys if isinstance(k, ast.Constant))
+    if ok and form == 'literal':
+        keys = sorted(given)
         allowed = {'fn', 'open', 'fmd', 'pandas_nulls', '_base_dtype', 'tz', '_columns_dtype'}
         extra = [k for k in keys if k not in allowed]
         ctx.ob('R20.2', 'api.__getitem__:derived-handle-inherits-only-dataset-level-state', not extra,
                'state forwarded to the sliced handle: %s; anything computed from the parent\'s row groups (statistics, '
                'category caches ...) is stale for the slice: %s' % (keys, extra or 'none'), api.loc(f))
     if ok:
-        for k_, v_ in zip(state[0].args[0].keys, state[0].args[0].values):
-            if isinstance(k_, ast.Constant) and k_.value != 'fmd':
-                ctx.ob('R20.2', 'api.__getitem__:forwarded-state-%s-is-the-parents-own' % k_.value, norm(v_) == 'self.%s' % k_.value,
+        for k_, v_ in sorted(given.items()):
+            if k_ != 'fmd':
+                ctx.ob('R20.2', 'api.__getitem__:forwarded-state-%s-is-the-parents-own' % k_, norm(v_) == 'self.%s' % k_,
                        '"%s": %s - a sliced handle answers metadata questions (dtypes, time zones, column index type) from the '
-                       'state of the handle it came from; anything else makes partial reads disagree with the full read' % (k_.value, norm(v_)), api.loc(v_))
+                       'state of the handle it came from; anything else makes partial reads disagree with the full read' % (k_, norm(v_)), api.loc(v_))
     rets = [s for s in iter_child_stmts(f.body) if isinstance(s, ast.Return)]
     ctx.ob('R20.2', 'api.__getitem__:always-returns-the-newly-built-handle',
            len(rets) == 1 and norm(rets[0]) == 'return new_pf' and rets[0] in f.body,
